@@ -34,7 +34,8 @@ def carries(v, w):
     if isinstance(v, dict):
         return isinstance(w, dict) and all(k in w and carries(x, w[k]) for k, x in v.items())
     try:
-        return type(v) is type(w) and v == w
+        from .C14 import _kind
+        return _kind(v) == _kind(w) and v == w
     except Exception:
         return False
 
